@@ -86,6 +86,15 @@ func useCheck(id, fam string, tier common.Tier) int {
 							continue
 						}
 						n := lenAll
+						if thorough && fam == "PKGO" {
+							// length 3 over the whole alphabet only for the plain function under two allow-lists in two using packages
+							if !(encl == e1.UEPlain && (mix.Allow == 1 || mix.Allow == 5) && !mix.TestOnly && (pk.Path == e1.UPkgU.Path || pk.Path == e1.UPkgW.Path)) {
+								n = 2
+							}
+						}
+						if thorough && fam == "TONL" && encl != e1.UEPlain && encl != e1.UETestOnlyFunc && encl != e1.UEPkgVar {
+							n = 2
+						}
 						if !thorough {
 							rich := fam == "TONL" || ((mix.Allow == 1 || mix.Allow == 5) && !mix.TestOnly && (pk.Path == e1.UPkgU.Path || pk.Path == e1.UPkgW.Path))
 							if !(encl == e1.UEPlain && rich) && !(encl == e1.UETestOnlyFunc && fam == "TONL") {
